@@ -191,6 +191,12 @@ def gen_cases(ctx):
         add("env-file", "yaml", "tasks: {t0: {command: [\"true\"], env_file: e.env}}\n", {"e.env": e.decode("latin1")})
     add("env-file-missing", "yaml", "tasks: {t0: {command: [\"true\"], env_file: nosuch.env}}\n")
     add("env-file-dir", "yaml", "tasks: {t0: {command: [\"true\"], env_file: sub}}\n", {"sub/x": "1"})
+    # entries that the directory listing shows but that cannot be read: a dangling symbolic link in an imported directory, as an imported
+    # file, as the env_file
+    link = {"symlink": "removed/gone.yaml"}
+    add("dangling-link", "yaml", "import: [conf.d]\ntasks: {t0: {command: [\"true\"]}}\n", {"conf.d/ok.yaml": "tasks: {b: {command: [\"true\"]}}\n", "conf.d/extra.yaml": link})
+    add("dangling-link", "yaml", "import: [extra.yaml]\ntasks: {t0: {command: [\"true\"]}}\n", {"extra.yaml": link})
+    add("dangling-link", "yaml", "tasks: {t0: {command: [\"true\"], env_file: e.env}}\n", {"e.env": link})
     return cases
 
 
@@ -258,7 +264,8 @@ def run(ctx):
     res.rule = ("documents from a grammar of the whole schema (tasks, stages, contexts, watchers, imports, variables, every key), 80% of them mutated "
                 "(a random node replaced by null / scalar / list / map of the wrong type / deep nesting, deleted, unknown or mis-cased key added), serialised "
                 "as YAML / JSON / TOML, some truncated, with stray or invalid UTF-8 bytes or a duplicated line; YAML anchors, merge keys, aliases, "
-                "multi-documents, complex keys; 13 env-file shapes; each loaded by list / show / graph / validate (10 s limit).  Plus one empty body at "
+                "multi-documents, complex keys; 13 env-file shapes; dangling symbolic links (in an imported directory, as import, as env_file); each loaded by list / show / graph / validate and, "
+                "for YAML, through default-configuration resolution (10 s limit).  Plus one empty body at "
                 "every position of a fixed configuration, compared with the model.  distinct = distinct document text; non-trivial = mutated or special.")
     cases = ctx.replay_cases if ctx.replay_cases else gen_cases(ctx)
     cases = [c for c in cases if "text_b64" in c]
@@ -273,6 +280,13 @@ def run(ctx):
             if ctx.tier != "thorough" and argv[-2:-1] == ["show"] and c["id"] % 2:
                 continue
             jobs.append({"id": len(jobs), "files": files, "argv": argv, "timeout": 10, "case": c["id"]})
+        # the same document found by DEFAULT-CONFIG RESOLUTION (no -c): errors take another path through the command-line front end
+        if c["fmt"] == "yaml" and (c["kind"] != "mutated" or c["id"] % 3 == 0):
+            f2 = dict(files)
+            f2["taskctl.yaml"] = f2.pop(fn)
+            if "inc.yaml" in f2 and isinstance(f2["inc.yaml"], str):
+                f2["inc.yaml"] = f2["inc.yaml"].replace("cfg.yaml", "taskctl.yaml")
+            jobs.append({"id": len(jobs), "files": f2, "argv": ["list"], "timeout": 10, "case": c["id"]})
     out = clilib.run_cli(ctx.workdir, jobs, timeout=10)
     seen_bad = set()
     for j in jobs:
@@ -293,7 +307,7 @@ def run(ctx):
                     where = line.strip().split(" ")[0]
                     break
             res.violations.append({"class": None, "what": "`taskctl %s` %s while loading a %s document (%s)" % (
-                j["argv"][-2] if j["argv"][-2] in ("show", "graph") else j["argv"][-1] if j["argv"][0] == "-c" else "validate",
+                "list (default configuration file)" if j["argv"] == ["list"] else j["argv"][-2] if j["argv"][-2] in ("show", "graph") else j["argv"][-1] if j["argv"][0] == "-c" else "validate",
                 "did not end in 10 s" if k == 3 else "crashed", c["fmt"], where[-60:]), "case": c,
                 "observed": {"argv": j["argv"], "rc": r["rc"], "tail": txt[-1500:]}})
     # ---- structured empty-body / env-file cases against the model ----
